@@ -74,7 +74,7 @@ class Ctx:
 
     def known_finding(self, entry, detail):
         line = f"KNOWN-FINDING: property={self.pid} {entry['id']}: {entry['what']} [{detail}]"
-        if line not in self.known_lines:
+        if not any(l.startswith(f"KNOWN-FINDING: property={self.pid} {entry['id']}:") for l in self.known_lines):
             self.known_lines.append(line)
 
     def stream(self, name, evaluations, nontrivial, rule, samples, extra=None):
